@@ -67,6 +67,8 @@ func panicRules(roots []string) func(p *Prog, r *Report) {
 		rulePanicIdx(p, r, "mxj", ".", fnSet(core))
 		rulePanicNil(p, r, core)
 		rulePanicExplicit(p, r, core)
+		rulePanicCompare(p, r, core)
+		rulePanicOverflow(p, r, core)
 	}
 }
 
@@ -87,9 +89,9 @@ func init() {
 		panicRules(grpMapDecode))
 
 	register("C02",
-		"Structural agreement of decoder and encoder conventions: TABLE.keys (both halves read the shared key variables), FOLD.total (the decoder's snake-case folding replaces every hyphen, so it is idempotent: the names the encoder writes decode to themselves), PAIR.derived (lenAttrPrefix tracks attrPrefix), TABLE.partition (attribute / text / element partition of a map's keys is the same predicate in both scans), ESC.flow (every Map value reaches the output escaped unless xmlEscapeChars is known false), TABLE.escape (entity table, order, no unescaped early return), ORDER (sorted emission), WALK.arms (every list member and collected child is encoded), TAGS.protocol (path-sensitive typestate of the Map element encoder: on every path feasible for a decoder-shaped value the buffer writes follow start tag, attributes, close, content, end tag / self-close; start and end tag name the same parameter; no successful return leaves an open element), TAGS.content (on no path is the element completed while its text entry or scalar value — string, number or boolean, as float/bool casting produces — has not been written). Not decided: equality of the second decode with the first; well-formedness of names and of the sequence encoder's output."+levelNote,
+		"Structural agreement of decoder and encoder conventions: TABLE.keys (both halves read the shared key variables), FOLD.total (the decoder's snake-case folding replaces every hyphen, so it is idempotent: the names the encoder writes decode to themselves), PAIR.derived (lenAttrPrefix tracks attrPrefix), TABLE.partition (attribute / text / element partition of a map's keys is the same predicate in both scans), ESC.flow (every Map value reaches the output escaped unless xmlEscapeChars is known false), TABLE.escape (entity table, order, no unescaped early return), ORDER (sorted emission), WALK.arms (every list member and collected child is encoded), TAGS.protocol (path-sensitive typestate of the Map element encoder: on every path feasible for a decoder-shaped value the buffer writes follow start tag, attributes, close, content, end tag / self-close; start and end tag name the same parameter; no successful return leaves an open element), ROOT.single (each encoder passes exactly one call of the element encoder on every path that returns a document; the call on the receiver's single entry is guarded by len == 1), TAGS.content (on no path is the element completed while its text entry or scalar value — string, number or boolean, as float/bool casting produces — has not been written). Not decided: equality of the second decode with the first; well-formedness of names and of the sequence encoder's output."+levelNote,
 		nil,
-		ruleTagProtocol, func(p *Prog, r *Report) { ruleTagContent(p, r, "map") }, ruleTableKeys,
+		ruleTagProtocol, func(p *Prog, r *Report) { ruleTagContent(p, r, "map") }, ruleTableKeys, ruleRootSingle,
 		func(p *Prog, r *Report) { ruleFoldTotal(p, r, []string{"mxj.xmlToMapParser"}) },
 		func(p *Prog, r *Report) { ruleRenderLossless(p, r, []string{"mxj.marshalMapToXmlIndent"}) }, rulePairDerived, ruleTablePartition, ruleEsc, ruleTableEscape, ruleOptExcl,
 		func(p *Prog, r *Report) { ruleOrder(p, r, grpMapEncode) },
@@ -98,7 +100,7 @@ func init() {
 	register("C03",
 		"Structural clauses of 'encoding a JSON-shaped value as XML preserves all data': WALK.arms (every list member encoded in order under its key, every collected child encoded, AnyXml encodes every member of a list value), ROOT.explicit (AnyXml / AnyXmlIndent always name the root when they hand a map to Map.Xml / XmlIndent), TABLE.partition, ESC.flow, TABLE.escape (all five special characters are escaped, '&' first, no early return leaves one unescaped), ERR.path on the Map encoders and AnyXml/AnyXmlIndent (an element encoder error cannot be overwritten or dropped), TAGS.protocol (typestate of the element encoder: every path feasible for a JSON-shaped value writes a complete, properly nested element), TAGS.content (no scalar value or text entry is dropped: a write computed from it precedes the end of the element on every path), OWN.private (the document returned is not reachable from package state — a pooled or cached buffer — so no later call can rewrite it), RENDER.lossless (no value-changing numeric conversion between the encoded value and its text). Not decided: decode(encode(m)) ≅ m; well-formedness for arbitrary key strings."+levelNote,
 		nil,
-		ruleTagProtocol, func(p *Prog, r *Report) { ruleTagContent(p, r, "map") },
+		ruleTagProtocol, func(p *Prog, r *Report) { ruleTagContent(p, r, "map") }, ruleRootSingle,
 		func(p *Prog, r *Report) { ruleRenderLossless(p, r, []string{"mxj.marshalMapToXmlIndent"}) },
 		func(p *Prog, r *Report) {
 			ruleOwnPrivate(p, r, []string{"mxj.Map.Xml", "mxj.Map.XmlIndent", "mxj.AnyXml", "mxj.AnyXmlIndent"})
@@ -116,7 +118,7 @@ func init() {
 		func(p *Prog, r *Report) {
 			ruleOwnPrivate(p, r, []string{"mxj.MapSeq.Xml", "mxj.MapSeq.XmlIndent", "mxj.BeautifyXml"})
 		},
-		rulePairSeq, ruleSeqUnwind, ruleSeqResult, ruleSeqTypes, ruleSeqLeafKeys,
+		rulePairSeq, ruleSeqUnwind, ruleSeqResult, ruleSeqTypes, ruleSeqLeafKeys, ruleRootSingle,
 		func(p *Prog, r *Report) { ruleTextNonEmpty(p, r, []string{"mxj.xmlSeqToMapParser"}) },
 		func(p *Prog, r *Report) { ruleRenderLossless(p, r, []string{"mxj.mapToXmlSeqIndent"}) },
 		func(p *Prog, r *Report) { ruleOrder(p, r, concat(grpSeqEncode, grpBeautify)) },
@@ -130,7 +132,7 @@ func init() {
 	register("C05",
 		"Structural clauses of 'special characters survive; invalid output is an error': ESC.flow (value sinks of both encoders), TABLE.escape, OPT.excl (encoder- and decoder-side escaping never both on), VALID.coupling (each of the four encoders validates the very bytes it returns, under xmlCheckIsValid, to their end, with a decoder that keeps the default strict settings and reads a copy, not the output buffer), ERR.path on the four encoders (an encoder or validator error always reaches the caller), TAGS.protocol / TAGS.seqprotocol (the markup the two element encoders write around the escaped values is a properly nested start tag / attributes / content / end tag sequence on every path). Not decided: exact value recovery, absence of double escaping for already-escaped input, well-formedness of names."+levelNote,
 		nil,
-		ruleTagProtocol, ruleTagProtocolSeq, ruleEsc, ruleTableEscape, ruleOptExcl, ruleValidCoupling,
+		ruleTagProtocol, ruleTagProtocolSeq, ruleEsc, ruleTableEscape, ruleOptExcl, ruleValidCoupling, ruleRootSingle,
 		func(p *Prog, r *Report) {
 			ruleErr(p, r, []string{"mxj.Map.Xml", "mxj.Map.XmlIndent", "mxj.MapSeq.Xml", "mxj.MapSeq.XmlIndent"}, "the four XML encoders")
 		})
@@ -168,6 +170,9 @@ func init() {
 		func(p *Prog, r *Report) { ruleWalkCollect(p, r, []string{"mxj.valuesForKeyPath"}) },
 		func(p *Prog, r *Report) { ruleWalkNoEarlyExit(p, r, []string{"mxj.valuesForKeyPath"}) },
 		func(p *Prog, r *Report) {
+			ruleScanComplete(p, r, p.scopeFuncs(r, "SCAN.complete", []string{"mxj.Map.ValuesForPath"}))
+		},
+		func(p *Prog, r *Report) {
 			ruleWalkLastIndex(p, r, p.scopeFuncs(r, "WALK.lastindex", []string{"mxj.Map.ValuesForPath"}))
 		},
 		func(p *Prog, r *Report) {
@@ -196,6 +201,9 @@ func init() {
 		},
 		func(p *Prog, r *Report) { ruleWalkCollect(p, r, []string{"mxj.hasKey"}) },
 		func(p *Prog, r *Report) { ruleWalkNoEarlyExit(p, r, []string{"mxj.hasKey", "mxj.hasKeyPath", "mxj.valuesForKeyPath"}) },
+		func(p *Prog, r *Report) {
+			ruleScanComplete(p, r, p.scopeFuncs(r, "SCAN.complete", []string{"mxj.Map.ValuesForKey", "mxj.Map.PathsForKey", "mxj.Map.ValuesForPath"}))
+		},
 		func(p *Prog, r *Report) {
 			ruleFilterAfterIndex(p, r, p.scopeFuncs(r, "FILTER.afterindex", []string{"mxj.Map.ValuesForPath"}))
 		},
@@ -319,13 +327,14 @@ func init() {
 		})
 
 	register("C14",
-		"Structural clauses of casting: INFL.castflag (the cast flag reaches only cast() and the recursion, so structure cannot depend on it; every cast option is read only on the flag-true path; every return of cast is the identical input string or a successful strconv.Parse* of it), TABLE.naninf (with CastNanInf off all seven spellings strconv.ParseFloat accepts for NaN/Inf are excluded before its result can be returned), cast call-site coverage (attribute, text and simple values of both decoders pass through cast with the decoder's flag), CAST.input (the string handed to cast is computed from the current token only, never from a value read back from the node being built, which has already been cast). Not decided: that each leaf gets exactly the value its text denotes."+levelNote,
+		"Structural clauses of casting: INFL.castflag (the cast flag reaches only cast() and the recursion, so structure cannot depend on it; every cast option is read only on the flag-true path; every return of cast is the identical input string or a successful strconv.Parse* of it), TABLE.naninf (with CastNanInf off all seven spellings strconv.ParseFloat accepts for NaN/Inf are excluded before its result can be returned), cast call-site coverage (attribute, text and simple values of both decoders pass through cast with the decoder's flag), OPT.writers (cast and the decoders write no package variable: what a decode returns depends on the document and the options in force, not on earlier decodes), CAST.opaque (the decoders never test a value of the node under construction for a scalar type: what cast made of a text cannot change the keys), CAST.input (the string handed to cast is computed from the current token only, never from a value read back from the node being built, which has already been cast). Not decided: that each leaf gets exactly the value its text denotes."+levelNote,
 		[]string{"strconv.ParseFloat documentation (accepted NaN/Inf spellings)"},
-		ruleInflCastFlag, ruleTableNanInf, ruleInflCover, ruleCastParsers,
-		func(p *Prog, r *Report) { ruleCastInput(p, r, []string{"mxj.xmlToMapParser", "mxj.xmlSeqToMapParser"}) })
+		ruleInflCastFlag, ruleTableNanInf, ruleInflCover, ruleCastParsers, ruleOptWriters,
+		func(p *Prog, r *Report) { ruleCastInput(p, r, []string{"mxj.xmlToMapParser", "mxj.xmlSeqToMapParser"}) },
+		func(p *Prog, r *Report) { ruleCastOpaque(p, r, []string{"mxj.xmlToMapParser", "mxj.xmlSeqToMapParser"}) })
 
 	register("C15",
-		"Panic-obligation discharge over every core function reachable from the decoders, the string-argument APIs and the encoders: PANIC.idx (every index/slice operation is either proven in range by the Go compiler's prove pass or discharged by the zone analysis / a structural rule), PANIC.assert (every single-value type assertion has an operand whose dynamic type set is within the asserted type), PANIC.nil (nil map writes, nil dereferences of module results, method calls on nil errors, calls of nil function variables), PANIC.explicit, WALK.reentry (a walker that calls itself with the same node does so only with a segment tested different from the one that triggered the call: no unbounded recursion on a key named like the wildcard), and ERR.path on the decoders. Not decided: stack exhaustion on deeply nested input, panics inside the standard library on well-typed arguments, termination of the bulk handlers, 'fails exactly when the tokenizer rejects'."+levelNote,
+		"Panic-obligation discharge over every core function reachable from the decoders, the string-argument APIs and the encoders: PANIC.idx (every index/slice operation is either proven in range by the Go compiler's prove pass or discharged by the zone analysis / a structural rule), PANIC.assert (every single-value type assertion has an operand whose dynamic type set is within the asserted type), PANIC.nil (nil map writes, nil dereferences of module results, method calls on nil errors, calls of nil function variables), PANIC.explicit, PANIC.overflow (an index or slice bound x + c is computed only where x is bounded above, so the zone analysis' mathematical integers are sound), PANIC.compare (== between two interface values only where one operand can hold comparable types only), WALK.reentry (a walker that calls itself with the same node does so only with a segment tested different from the one that triggered the call: no unbounded recursion on a key named like the wildcard), and ERR.path on the decoders. Not decided: stack exhaustion on deeply nested input, panics inside the standard library on well-typed arguments, termination of the bulk handlers, 'fails exactly when the tokenizer rejects'."+levelNote,
 		nil,
 		panicRules(c15Roots()),
 		func(p *Prog, r *Report) { ruleWalkReentry(p, r, p.scopeFuncs(r, "WALK.reentry", c15Roots())) },
@@ -339,6 +348,9 @@ func init() {
 		func(p *Prog, r *Report) { ruleOrder(p, r, encoderRoots()) },
 		func(p *Prog, r *Report) { ruleNondet(p, r, encoderRoots()) },
 		ruleWrapWriter, ruleWrapConcat, ruleInflIndent, ruleValidCoupling, ruleSeqTypes,
+		func(p *Prog, r *Report) {
+			ruleFwdNames(p, r, func(n string) bool { return hasPrefixAny(n, "mxj.Maps.", "mxj.Map.", "mxj.MapSeq.", "mxj.AnyXml", "mxj.BeautifyXml") })
+		},
 		ruleTagProtocol, ruleTagProtocolSeq,
 		func(p *Prog, r *Report) {
 			ruleFwdVariadic(p, r, func(n string) bool {
@@ -365,6 +377,9 @@ func init() {
 		"Structural clauses of 'files, gob and Copy read back equal': WRAP.concat (file writers write exactly the string form, which is the concatenation of per-Map encodings), WRAP.fileloop (readers loop on the raw reader over the opened file; exits only by io.EOF or an error return carrying the Maps read so far; every decoded Map is appended), TABLE.gob (Encode/Decode type agreement; container types registered), WRAP.compose + OWN.fresh (Copy), JSON.decoder (every JSON decode the reader and file functions reach is the one Decoder of NewMapJson on which UseNumber is set under JsonUseNumber: numbers written from json.Number values are read back as such), ERR.path on the file and gob functions. Not decided: equality of what is read back; behaviour on truncated files."+levelNote,
 		nil,
 		ruleWrapConcat, ruleWrapFileLoop, ruleTableGob, ruleJsonEscape,
+		func(p *Prog, r *Report) {
+			ruleFwdNames(p, r, func(n string) bool { return hasPrefixAny(n, "mxj.Maps.", "mxj.NewMapsFrom") })
+		},
 		ruleJsonDecoderFor([]string{"mxj.NewMapJson", "mxj.NewMapJsonReader", "mxj.NewMapJsonReaderRaw", "mxj.HandleJsonReader", "mxj.HandleJsonReaderRaw", "mxj.NewMapsFromJsonFile", "mxj.NewMapsFromJsonFileRaw"}),
 		func(p *Prog, r *Report) {
 			ruleWrapCompose(p, r, []wrapSpec{{"mxj.Map.Copy", []string{"mxj.Map.Json", "mxj.NewMapJson"}, false}})
@@ -376,7 +391,7 @@ func init() {
 		})
 
 	register("C20",
-		"Wrapper conformance in the resolved program: WRAP.compose over every exported function of j2x (16), x2j (16) and the thin x2j-wrapper forms (19): the module calls are exactly the documented composition, each step is applied to the result of the previous one under its err==nil edge, returned values are results of the composition; FWD.param/FWD.variadic (every parameter reaches the wrapped call); for x2j-wrapper's re-implemented walkers INFL.crumb, WALK.total, WALK.progress, WALK.collect, INFL.metric; LOOP.handler and IO.read on its bulk forms; ERR.path; OPT.dead for the wrapper's own option. Not decided: value equality of results."+levelNote,
+		"Wrapper conformance in the resolved program: WRAP.compose over every exported function of j2x (16), x2j (16) and the thin x2j-wrapper forms (19): the module calls are exactly the documented composition, each step is applied to the result of the previous one under its err==nil edge, returned values are results of the composition; FWD.param/FWD.variadic (every parameter reaches the wrapped call); FWD.identity (string / list / byte arguments reach the core call as the parameter itself); SCAN.complete (a member of another type never ends a scan over list members); for x2j-wrapper's re-implemented walkers INFL.crumb, WALK.total, WALK.progress, WALK.collect, INFL.metric; LOOP.handler and IO.read on its bulk forms; ERR.path; OPT.dead for the wrapper's own option. Not decided: value equality of results."+levelNote,
 		[]string{"wrapper documentation transcribed in rules_wrap.go"},
 		func(p *Prog, r *Report) { ruleWrapCompose(p, r, j2xSpecs()) },
 		func(p *Prog, r *Report) { ruleWrapCompose(p, r, x2jSpecs()) },
@@ -384,6 +399,8 @@ func init() {
 		func(p *Prog, r *Report) {
 			ruleFwdVariadic(p, r, func(n string) bool { return hasPrefixAny(n, "j2x.", "x2j.", "x2jw.") })
 		},
+		func(p *Prog, r *Report) { ruleFwdIdentity(p, r, "j2x", "x2j") },
+		func(p *Prog, r *Report) { ruleScanComplete(p, r, p.PkgFuncs("x2jw")) },
 		func(p *Prog, r *Report) { ruleInflCrumb(p, r, []string{"x2jw.hasKeyPath"}) },
 		func(p *Prog, r *Report) {
 			ruleWalkTotal(p, r, []walkerSpec{{"x2jw.hasKey", nil}, {"x2jw.hasKeyPath", nil}})
